@@ -126,6 +126,9 @@ class World:
         class G(typing.Generic[_T]):           # plain user generic
             pass
 
+        class GN(GL[str], typing.Generic[_T]):  # re-binds the SAME TypeVar: GN[int] still holds strs
+            pass
+
         @typing.runtime_checkable
         class HasM(typing.Protocol):
             def m(self): ...
@@ -134,6 +137,8 @@ class World:
             def m(self):
                 return 1
 
+        self.GN = GN
+        GN.__name__ = GN.__qualname__ = f"GN_{n}"
         for c in (GL, G, HasM, PM):
             c.__name__ = c.__qualname__ = f"{c.__name__}_{n}"
         self.GL, self.G, self.HasM, self.PM = GL, G, HasM, PM
@@ -144,7 +149,7 @@ class World:
         self.classes = {"int": int, "bool": bool, "str": str, "float": float, "complex": complex,
                         "NoneType": type(None), "A": self.A, "B": self.B, "list": list, "dict": dict,
                         "object": object, "tuple": tuple, "HasM": self.HasM, "PM": self.PM, "G": self.G,
-                        "GL": self.GL}
+                        "GL": self.GL, "GN": self.GN}
         self._tv = 0
 
     # ------------------------------------------------------------------ objects
@@ -206,6 +211,8 @@ class World:
             return collections.deque(items)
         if c == "GL":
             return self.GL(items)
+        if c == "GN":
+            return self.GN(items)
         if c == "USeq":
             return self.USeq(items)
         if c == "UColl":
@@ -311,7 +318,7 @@ class World:
             kk, vv = self.hint(a[0], sp), self.hint(a[1], sp)
             return T.ItemsView[kk, vv] if sp % 2 else cabc.ItemsView[kk, vv]
         if k == "gen":
-            return (self.GL if s == "GL" else self.G)[self.hint(a[0], sp)]
+            return {"GL": self.GL, "GN": self.GN}.get(s, self.G)[self.hint(a[0], sp)]
         if k == "rec":
             # PEP 695 recursive alias  type R = list[R | <child>]  (lazily evaluated in its own namespace)
             self._tv += 1
